@@ -95,6 +95,7 @@ Fixpoint wtb (t : aty) (v : aval) : bool :=
        | _, _ => false
        end) ts vs
   | AEnum ts, VEnum tag v =>
+    (N.of_nat tag <? U64_MAX1) &&
     (fix pick (ts : list aty) (k : nat) : bool :=
        match ts, k with
        | t :: _, O => wtb t v
@@ -117,9 +118,9 @@ Lemma wtb_tuple ts vs : wtb (ATuple ts) (VSeq vs) = wtb_fields ts vs.
 Proof. reflexivity. Qed.
 Lemma wtb_struct ts vs : wtb (AStruct ts) (VSeq vs) = wtb_fields ts vs.
 Proof. reflexivity. Qed.
-Lemma wtb_enum ts k v : wtb (AEnum ts) (VEnum k v) = wtb_variant ts k v.
+Lemma wtb_enum ts k v : wtb (AEnum ts) (VEnum k v) = (N.of_nat k <? U64_MAX1) && wtb_variant ts k v.
 Proof.
-  cbn [wtb]. unfold wtb_variant. revert k. induction ts as [|t r IH]; intros [|k]; cbn [nth_error]; try reflexivity. apply IH.
+  cbn [wtb]. f_equal. unfold wtb_variant. revert k. induction ts as [|t r IH]; intros [|k]; cbn [nth_error]; try reflexivity. apply IH.
 Qed.
 
 (* induction principle with the nested lists *)
